@@ -347,3 +347,11 @@ MUTANTS = [
     M("c09-sql-d-prefix", DB, "                        if len(tag) > 1 and tag[1] == d_tag:", "                        if len(tag) > 1 and tag[1].startswith(d_tag):", "C09.dvalue"),
 ]
 EQUIVS = []
+
+# functions whose syntactic mutants are used for the thorough tier's sensitivity figure (sa/automut.py)
+ANCHORS = [
+    "nostr_relay.storage.db:DBStorage.pre_save",
+    "nostr_relay.storage.db:DBStorage.post_save",
+    "nostr_relay.storage.kv:WriterThread._post_save",
+    "nostr_relay.storage.kv:get_d_value",
+]
